@@ -15,7 +15,8 @@ from contracts.common import *  # noqa
 from contracts import common, insn, symbols_c, c06
 from contracts.insn import *  # noqa
 from contracts.symbols_c import sym_tables, mk_state, name_input, key, unit_extern  # noqa
-from contracts.compiler_c import compiler_obj
+from contracts import compiler_c
+from contracts.compiler_c import compiler_obj, unit_dispatch  # noqa
 from pyvc import driver
 from pyvc.engine import SymMap, strlower
 
@@ -493,6 +494,9 @@ def units(tier):
         us.append(("rm-pct[%s]" % sh, "unit_rm_pct", dict(shape=sh, reg_lazy=False)))
     us.append(("bounded-literal-case", "unit_bounded_literal_case", {}))
     us.append(("text-frame", "unit_text_frame", {}))
+    # what a statement is: a built-in in any letter case, a metacommand without its dot, an implicit word list of a variable
+    for k in compiler_c.DISPATCH_KINDS:
+        us.append(("dispatch[%s]" % k, "unit_dispatch", dict(kind=k)))
     us.append(("bounded-grouping", "unit_bounded_grouping", {}))
     return us
 
@@ -509,6 +513,16 @@ def canary(eng):
 
 
 def replay(o, tree):
+    if (o.get("cfg") or {}).get("kind") == "dispatch":
+        pairs = [("x = 5\nx\n", "x = 5\n.word x\n"), ("x = 5\nx, 1\n", "x = 5\n.word x, 1\n"), ("WORD 1, 2\n", ".word 1, 2\n"), ("MoV #1, R0\n", "mov #1, r0\n"),
+                 ("x = 5\nX\n", "x = 5\n.word x\n"), ("lab: nop\nlab\n", "frob\n")]
+        jobs = []
+        for a_, b_ in pairs:
+            jobs += [{"kind": "asm", "sources": [a_]}, {"kind": "asm", "sources": [b_]}]
+        res = driver.native(jobs, tree)
+        bad = [(pairs[i][0], [res[2 * i]["status"], res[2 * i].get("code_hex")], [res[2 * i + 1]["status"], res[2 * i + 1].get("code_hex")]) for i in range(len(pairs))
+               if (res[2 * i]["status"], res[2 * i].get("code_hex")) != (res[2 * i + 1]["status"], res[2 * i + 1].get("code_hex"))]
+        return dict(jobs=jobs[:4], expected="the implicit / differently-cased spelling assembles like the explicit one", observed=bad, reproduced=bool(bad))
     if (o.get("cfg") or {}).get("kind") == "pct":
         from contracts import c08
         r = c08.replay(o, tree)
